@@ -28,7 +28,8 @@
      rxs    : [chan, data, upds, cbs]           packets the library dispatched, with what was invoked
               upds : [cb, p, arg, cache, get]   update callback cb called for parameter p
               cbs  : [rid, pay]                 one-shot reply callback of request rid called
-     gots   : [rid, p, val, nrx]                get_value results (nrx = packets dispatched before)  *)
+     gots   : [rid, p, val, nrx]                get_value results (nrx = packets dispatched before)
+     ext    : (dev, lib)                        extended type the device answered / persistent mark in the library *)
 EXTENDS Naturals, Sequences, FiniteSets
 
 \* ------------------------------------------------------------------ PART 1: typed values
@@ -129,21 +130,21 @@ Known(cfg, p) == p \in 1..cfg.np
 IssuedOf(issued, rid) == {i \in DOMAIN issued : issued[i].rid = rid}
 
 \* ---- one API call (evaluated when it has returned)
-\* refused: read-only or unknown target -> must raise, nothing may be issued
-\* out of range (or not representable in the type) -> must raise, nothing issued
-\* otherwise -> exactly one request, on the right channel, to the parameter's index, exact bytes
+\* read-only or unknown target -> refused: nothing may be issued (how the refusal is signalled is not
+\*    part of the property)
+\* set, out of range (or not representable in the type) -> must raise, nothing issued
+\* set, in range -> exactly one request on the write channel to the parameter's index, exact bytes
+\* other requests -> if the call did not raise: exactly one request, right channel, command and index
 CallClause(cfg, c, issued) ==
     LET mine == IssuedOf(issued, c.rid) IN
     IF ~c.done THEN "ok"
     ELSE IF c.k = "get" THEN "ok"
-    ELSE IF c.k = "set" /\ (~Known(cfg, c.p) \/ cfg.ro[c.p])
-    THEN IF c.exc = "" THEN "RefusedMustRaise" ELSE IF mine # {} THEN "RefusedNoTransmission" ELSE "ok"
-    ELSE IF ~Known(cfg, c.p) THEN (IF mine # {} THEN "RefusedNoTransmission" ELSE "ok")
+    ELSE IF ~Known(cfg, c.p) \/ (c.k = "set" /\ cfg.ro[c.p])
+    THEN (IF mine # {} THEN "RefusedNoTransmission" ELSE "ok")
     ELSE IF c.k = "set" /\ ~Accepts(cfg.type[c.p], c.v)
     THEN IF c.exc = "" THEN "OutOfRangeMustRaise" ELSE IF mine # {} THEN "OutOfRangeNoTransmission" ELSE "ok"
-    ELSE IF c.k \in {"store", "clear", "getstate"} /\ ~cfg.pers[c.p]
-    THEN (IF mine # {} /\ c.exc # "" THEN "RefusedNoTransmission" ELSE "ok")
-    ELSE IF c.exc # "" THEN (IF c.k = "set" THEN "SetNotTransmitted" ELSE IF mine # {} THEN "RaisedButIssued" ELSE "ok")
+    ELSE IF c.exc # ""
+    THEN (IF c.k = "set" THEN "SetNotTransmitted" ELSE IF mine # {} THEN "RaisedButIssued" ELSE "ok")
     ELSE IF Cardinality(mine) # 1 THEN "OneRequestPerCall"
     ELSE LET r == issued[CHOOSE i \in mine : TRUE] IN
          CASE c.k = "set" ->
@@ -152,6 +153,10 @@ CallClause(cfg, c, issued) ==
                 ELSE "ok"
            [] c.k = "read" -> IF r.chan # 1 \/ r.data # IdBytes(c.p) THEN "ReadAddress" ELSE "ok"
            [] OTHER -> IF r.chan # 3 \/ r.data # <<CmdOf(c.k)>> \o IdBytes(c.p) THEN "MiscAddress" ELSE "ok"
+
+\* ---- extended type replies (fetched while connecting): the library's "persistent" mark of a parameter
+\* must be what the device answered to the extended-type request for THAT parameter
+ExtClause(dev, lib) == IF lib # (dev = 1) THEN "ExtendedTypeNotDelivered" ELSE "ok"
 
 \* ---- the wire: issue order, one outstanding at a time
 WireClause(issued, wire) ==
